@@ -1049,6 +1049,12 @@ MUTANTS = [
          old="impl<T: StableHash + BitStore, O: BitOrder> StableHash for BitVec<T, O> {\n    fn stable_hash<H: StableHasher + ?Sized>(&self, state: &mut H) {\n        state.write_length_prefix(self.len());\n        for item in self {",
          new="impl<T: StableHash + BitStore, O: BitOrder> StableHash for BitVec<T, O> {\n    fn stable_hash<H: StableHasher + ?Sized>(&self, state: &mut H) {\n        state.write_length_prefix(self.len());\n        for item in self.as_raw_slice() {",
          expect="C13.c/BitVec/raw-storage-read-only-when-aligned"),
+    dict(id="C16.f-D12-reintroduced-unwrap-of-an-empty-probation-head", prop="C16", file="crates/storage/src/tiny_lfu/policy.rs",
+         old='        let Some(victim) = self.lru.peek_least_recent(lru::Region::Probation)\n        else {\n            self.lru.move_key_to_head_of_region(unpin, lru::Region::Probation);\n            return;\n        };\n', new="        let victim =\n            self.lru.peek_least_recent(lru::Region::Probation).unwrap();\n",
+         expect="C16.f/policy/region-head-unwrapped-only-under-its-own-length-test"),
+    dict(id="C16.f-trim-loop-guarded-by-the-wrong-region", prop="C16", file="crates/storage/src/tiny_lfu/policy.rs",
+         old="        while self.lru.pinned_len() > 0 {", new="        while self.lru.probation_len() > 0 {",
+         expect="C16.f/policy/region-head-unwrapped-only-under-its-own-length-test"),
     dict(id="C12.k-varint-reader-u128-stops-on-set-bit", prop="C12", file="crates/serialize/src/postcard.rs",
          old="            result |= u128::from(byte & 0x7F) << shift;\n\n            if byte & 0x80 == 0 {",
          new="            result |= u128::from(byte & 0x7F) << shift;\n\n            if byte & 0x80 != 0 {",
